@@ -159,21 +159,42 @@ extern "C" { extern int g_unsimp_threw; }
 #define try
 #define catch(decl) if(g_unsimp_threw)
 
-/* vectors: only dimension and identity matter here */
+/* This instance logs BY KIND (every kind occurs at most once per call of _storeSolutionReal, asserted by the contract through
+ * k_cnt): k_seq[kind] is the position of the event in the call sequence (1, 2, ...), g_nev the total number of events. */
+extern "C" {
+   extern int k_cnt[NKIND], k_seq[NKIND], k_arg[NKIND], k_arg2[NKIND], k_st_in[NKIND], k_hb_in[NKIND], k_ld_in[NKIND], k_hb_out[NKIND], k_ld_out[NKIND];
+}
+struct HostK : HostBase
+{
+   void kev(int kind, int arg, int arg2 = 0)
+   {
+      g_nev = g_nev + 1;
+      k_cnt[kind] = k_cnt[kind] + 1; k_seq[kind] = g_nev; k_arg[kind] = arg; k_arg2[kind] = arg2;
+      k_st_in[kind] = (int)_status; k_hb_in[kind] = _hasBasis; k_ld_in[kind] = _isRealLPLoaded;
+   }
+   void khavoc(int kind)
+   {
+      _status = (SPxSolverBase<R>::Status)nondet_int();
+      _hasBasis = nondet_bool(); _applyPolishing = nondet_bool(); _isRealLPLoaded = nondet_bool();
+      k_hb_out[kind] = _hasBasis; k_ld_out[kind] = _isRealLPLoaded;
+   }
+};
+
+/* vectors: only dimension and identity (id: 1 primal, 2 slacks, 3 dual, 4 reduced costs, 5 primal ray, 6 Farkas) matter here */
 struct VecStub
 {
-   int dimen;
+   int dimen; int id;
    void reDim(int newdim, const bool setZero = true) { dimen = newdim; }
    int dim() const { return dimen; }
 };
-struct HostS;
+/* DataArray<VarStatus>: size and identity (tag 7 rows, 8 columns; get_ptr() hands out the address of the tag) */
 struct StatArr
 {
-   int thesize;
+   int thesize; int tag;
    void reSize(int newsize) { thesize = newsize; }
    int size() const { return thesize; }
-   int* get_ptr() { return (int*)this; }               /* identity only: the basis arrays are never dereferenced here */
-   const int* get_const_ptr() const { return (const int*)this; }
+   int* get_ptr() { return &tag; }
+   const int* get_const_ptr() const { return &tag; }
 };
 struct BasisStub
 {
@@ -181,44 +202,40 @@ struct BasisStub
    SPxBasisBase<R>::SPxStatus status() const { return (SPxBasisBase<R>::SPxStatus)st; }
 };
 struct LPStub { int nr, nc; int scaled; };
+#define ST0 ((SPxSolverBase<R>::Status)0)
 struct SolverStubS : LPStub
 {
-   HostBase* host;
+   HostK* host;
    BasisStub bas; double sh; double objval; int basisStatus;
    bool weightsAreSetup;
-   const void* ray_expected; const void* farkas_expected; const void* sol_expected[5]; const void* rows_expected; const void* cols_expected;
    int nRows() const { return nr; }
    int nCols() const { return nc; }
    bool isScaled() const { return scaled != 0; }
    const BasisStub& basis() const { return *(BasisStub*)&bas; }   /* front end drops the const otherwise (README pitfall 3) */
    R shift() const { return sh; }
-   SPxSolverBase<R>::Status getPrimalray(VecStub& v) const { host->ev(K_GETRAY, (const void*)&v == ray_expected, v.dimen); return (SPxSolverBase<R>::Status)0; }
-   SPxSolverBase<R>::Status getDualfarkas(VecStub& v) const { host->ev(K_GETFARKAS, (const void*)&v == farkas_expected, v.dimen); return (SPxSolverBase<R>::Status)0; }
+   SPxSolverBase<R>::Status getPrimalray(VecStub& v) const { host->kev(K_GETRAY, v.id == 5, v.dimen); return ST0; }
+   SPxSolverBase<R>::Status getDualfarkas(VecStub& v) const { host->kev(K_GETFARKAS, v.id == 6, v.dimen); return ST0; }
    SPxSolverBase<R>::Status getBasis(int* rows, int* cols, const int rowsSize = -1, const int colsSize = -1) const
-   { host->ev(K_GETBASIS, (const void*)rows == rows_expected && (const void*)cols == cols_expected, rowsSize); return (SPxSolverBase<R>::Status)0; }
-   int which(const VecStub& v) const
-   { return (const void*)&v == sol_expected[1] ? 1 : (const void*)&v == sol_expected[2] ? 2 : (const void*)&v == sol_expected[3] ? 3 : (const void*)&v == sol_expected[4] ? 4 : 0; }
-   SPxSolverBase<R>::Status getPrimalSol(VecStub& v) const { host->ev(K_GETSOL, which(v) == 1 ? 1 : 0, v.dimen); return (SPxSolverBase<R>::Status)0; }
-   SPxSolverBase<R>::Status getSlacks(VecStub& v) const { host->ev(K_GETSOL, which(v) == 2 ? 2 : 0, v.dimen); return (SPxSolverBase<R>::Status)0; }
-   SPxSolverBase<R>::Status getDualSol(VecStub& v) const { host->ev(K_GETSOL, which(v) == 3 ? 3 : 0, v.dimen); return (SPxSolverBase<R>::Status)0; }
-   SPxSolverBase<R>::Status getRedCostSol(VecStub& v) const { host->ev(K_GETSOL, which(v) == 4 ? 4 : 0, v.dimen); return (SPxSolverBase<R>::Status)0; }
+   { host->kev(K_GETBASIS, *rows == 7 && *cols == 8, rowsSize); return ST0; }
+   SPxSolverBase<R>::Status getPrimalSol(VecStub& v) const { host->kev(K_GETPRIMAL, v.id == 1, v.dimen); return ST0; }
+   SPxSolverBase<R>::Status getSlacks(VecStub& v) const { host->kev(K_GETSLACKS, v.id == 2, v.dimen); return ST0; }
+   SPxSolverBase<R>::Status getDualSol(VecStub& v) const { host->kev(K_GETDUAL, v.id == 3, v.dimen); return ST0; }
+   SPxSolverBase<R>::Status getRedCostSol(VecStub& v) const { host->kev(K_GETREDCOST, v.id == 4, v.dimen); return ST0; }
    void forceRecompNonbasicValue() {}
    R objValue() { return objval; }
    SPxBasisBase<R>::SPxStatus getBasisStatus() const { return (SPxBasisBase<R>::SPxStatus)basisStatus; }
-   void setBasisStatus(SPxBasisBase<R>::SPxStatus stat) { host->ev(K_SETBASIS, (int)stat); }
-   void setBasis(const int* rows, const int* cols) { host->ev(K_SETBASISVEC, (const void*)rows == rows_expected && (const void*)cols == cols_expected); }
+   void setBasisStatus(SPxBasisBase<R>::SPxStatus stat) { host->kev(K_SETBASIS, (int)stat); }
+   void setBasis(const int* rows, const int* cols) { host->kev(K_SETBASISVEC, *rows == 7 && *cols == 8); }
 };
 /* the four result vectors of the simplifier: `_solReal._primal = _simplifier->unsimplifiedPrimal()` is a recorded copy */
 struct SimpVec { int which; };
 struct SimplifierStub
 {
-   HostBase* host; SolverStubS* solver;
+   HostK* host;
    SimpVec up, us, ud, ur;
    void unsimplify(const VecStub& x, const VecStub& y, const VecStub& s, const VecStub& r, const int* rows, const int* cols, bool isOptimal = true)
    {
-      int ok = solver->which(x) == 1 && solver->which(y) == 3 && solver->which(s) == 2 && solver->which(r) == 4
-               && (const void*)rows == solver->rows_expected && (const void*)cols == solver->cols_expected;
-      host->ev(K_UNSIMPLIFY, ok, isOptimal);
+      host->kev(K_UNSIMPLIFY, x.id == 1 && y.id == 3 && s.id == 2 && r.id == 4 && *rows == 7 && *cols == 8, isOptimal);
       g_unsimp_threw = nondet_bool();
    }
    const SimpVec& unsimplifiedPrimal() { return *(SimpVec*)&up; }
@@ -226,36 +243,38 @@ struct SimplifierStub
    const SimpVec& unsimplifiedDual() { return *(SimpVec*)&ud; }
    const SimpVec& unsimplifiedRedCost() { return *(SimpVec*)&ur; }
    void getBasis(int* rows, int* cols, const int rowsSize = -1, const int colsSize = -1) const
-   { host->ev(K_SIMPBASIS, (const void*)rows == solver->rows_expected && (const void*)cols == solver->cols_expected); }
+   { host->kev(K_SIMPBASIS, *rows == 7 && *cols == 8); }
 };
-struct SolVec : VecStub
+template <int ME> struct SolVec : VecStub
 {
-   HostBase* host; int me;
-   SolVec& operator=(const SimpVec& src) { host->ev(K_COPYSOL, src.which == me ? me : 0); return *this; }
+   HostK* host;
+   SolVec& operator=(const SimpVec& src) { host->kev(K_COPYSOL0 + ME, src.which == ME); return *this; }
 };
-struct SolStubS2
+struct SolStubS
 {
-   SolVec _primal, _slacks, _dual, _redCost;
+   SolVec<1> _primal; SolVec<2> _slacks; SolVec<3> _dual; SolVec<4> _redCost;
    VecStub _primalRay, _dualFarkas;
    R _objVal;
    bool _isPrimalFeasible, _isDualFeasible, _hasPrimalRay, _hasDualFarkas;
 };
-struct H : HostBase
+struct H : HostK
 {
    SolverStubS _solver;
    LPStub* _realLP;
-   SolStubS2 _solReal;
+   SolStubS _solReal;
    StatArr _basisStatusRows, _basisStatusCols;
    SimplifierStub* _simplifier;
    int nrows_orig, ncols_orig;
    int numRows() const { return nrows_orig; }
    int numCols() const { return ncols_orig; }
+   /* arg = 1 if LP is _solver, 2 if it is another LP */
    void _unscaleSolutionReal(LPStub& LP, bool persistent)
-   { ev(K_UNSCALESOL, (&LP == (LPStub*)&_solver) ? 1 : (&LP == _realLP ? 2 : 0), persistent); }
-   void _verifyObjLimitReal() { havoc(ev(K_VERIFYOBJ, 0)); }
-   void _verifySolutionReal() { havoc(ev(K_VERIFYSOL, 0)); }
+   { if(persistent) kev(K_UNSCALE_PERS, (&LP == (LPStub*)&_solver) ? 1 : 2); else kev(K_UNSCALE_INT, (&LP == (LPStub*)&_solver) ? 1 : 2); }
+   void _verifyObjLimitReal() { kev(K_VERIFYOBJ, 0); khavoc(K_VERIFYOBJ); }
+   void _verifySolutionReal() { kev(K_VERIFYSOL, 0); khavoc(K_VERIFYSOL); }
+   void _preprocessAndSolveReal(bool applySimplifier, volatile bool* interrupt = 0) { kev(K_RESOLVE, applySimplifier); khavoc(K_RESOLVE); }
    /* the real _loadRealLP makes the solver hold the real LP: _realLP = &_solver (needed by `else if(_realLP != &_solver)`) */
-   void _loadRealLP(bool initBasis) { ev(K_LOADLP, initBasis); _isRealLPLoaded = true; _realLP = &_solver; }
+   void _loadRealLP(bool initBasis) { kev(K_LOADLP, initBasis); _isRealLPLoaded = true; _realLP = &_solver; }
    void body(bool verify)
    {
 #include "_storeSolutionReal.inc"
@@ -278,21 +297,18 @@ extern "C" void w_store(int verify, int status, int basisStatus, double shift, d
    h._isRealLPLoaded = *isRealLPLoaded != 0; h._isRealLPScaled = *isRealLPScaled != 0; h._applyPolishing = false;
    h._solver.host = &h; h._solver.nr = nr; h._solver.nc = nc; h._solver.scaled = solverScaled; h._solver.bas.st = basisStatus;
    h._solver.sh = shift; h._solver.objval = objval; h._solver.basisStatus = basisStatus; h._solver.weightsAreSetup = *weightsAreSetup != 0;
-   h._solver.ray_expected = &h._solReal._primalRay; h._solver.farkas_expected = &h._solReal._dualFarkas;
-   h._solver.sol_expected[1] = (VecStub*)&h._solReal._primal; h._solver.sol_expected[2] = (VecStub*)&h._solReal._slacks;
-   h._solver.sol_expected[3] = (VecStub*)&h._solReal._dual; h._solver.sol_expected[4] = (VecStub*)&h._solReal._redCost;
-   h._solver.rows_expected = &h._basisStatusRows; h._solver.cols_expected = &h._basisStatusCols;
    /* type invariant of SoPlexBase: the real LP is loaded  <=>  _realLP == &_solver */
    h._realLP = h._isRealLPLoaded ? (LPStub*)&h._solver : &other;
-   simp.host = &h; simp.solver = &h._solver; simp.up.which = 1; simp.us.which = 2; simp.ud.which = 3; simp.ur.which = 4;
+   simp.host = &h; simp.up.which = 1; simp.us.which = 2; simp.ud.which = 3; simp.ur.which = 4;
    h._simplifier = haveSimplifier ? &simp : (SimplifierStub*)0;
-   h._solReal._primal.host = &h; h._solReal._primal.me = 1; h._solReal._slacks.host = &h; h._solReal._slacks.me = 2;
-   h._solReal._dual.host = &h; h._solReal._dual.me = 3; h._solReal._redCost.host = &h; h._solReal._redCost.me = 4;
+   h._solReal._primal.host = &h; h._solReal._slacks.host = &h; h._solReal._dual.host = &h; h._solReal._redCost.host = &h;
+   h._solReal._primal.id = 1; h._solReal._slacks.id = 2; h._solReal._dual.id = 3; h._solReal._redCost.id = 4;
+   h._solReal._primalRay.id = 5; h._solReal._dualFarkas.id = 6;
    h._solReal._primal.dimen = -1; h._solReal._slacks.dimen = -1; h._solReal._dual.dimen = -1; h._solReal._redCost.dimen = -1;
    h._solReal._primalRay.dimen = -1; h._solReal._dualFarkas.dimen = -1;
    h._solReal._isPrimalFeasible = *pfeas != 0; h._solReal._isDualFeasible = *dfeas != 0;
    h._solReal._hasPrimalRay = *hasPrimalRay != 0; h._solReal._hasDualFarkas = *hasDualFarkas != 0; h._solReal._objVal = *objValOut;
-   h._basisStatusRows.thesize = -1; h._basisStatusCols.thesize = -1;
+   h._basisStatusRows.thesize = -1; h._basisStatusCols.thesize = -1; h._basisStatusRows.tag = 7; h._basisStatusCols.tag = 8;
    h.nrows_orig = nr_orig; h.ncols_orig = nc_orig;
    g_nev = 0; g_unsimp_threw = 0;
    h.body(verify != 0);
